@@ -7,13 +7,31 @@ from common import fbits, show_floats, parse_floats, outcome
 PROP = 'C08'
 LEAN_TARGETS = ['Props.C08']
 REQUIRED_THEOREMS = ['Props.C08.sgd_refines', 'Props.C08.sgd_plain_refines', 'Props.C08.adam_refines',
-                     'Props.C08.frozen_fixed_sgd', 'Props.C08.frozen_fixed_adam', 'Props.C08.params_independent_sgd']
+                     'Props.C08.frozen_fixed_sgd', 'Props.C08.frozen_fixed_adam', 'Props.C08.params_independent_sgd',
+                     # the store model (buffers with identities, Synap.OptimStore)
+                     'Props.C08.store_separation', 'Props.C08.store_separation_pairwise', 'Props.C08.store_separation_initial',
+                     'Props.C08.state_not_corrupted_by_accumulation', 'Props.C08.state_not_corrupted_reachable',
+                     'Props.C08.step_keeps_gradients', 'Props.C08.zero_grad_overwrites_nothing',
+                     'Props.C08.updates_in_place', 'Props.C08.step_keeps_frozen',
+                     'Props.C08.store_event_refines_sgd', 'Props.C08.store_refines_value_model',
+                     'Props.C08.store_sgd_refines', 'Props.C08.store_sgd_plain_refines', 'Props.C08.data_element_kept',
+                     'Props.C08.arrays_never_grow', 'Props.C08.data_shape_kept', 'Props.C08.data_shape_kept_adam',
+                     'Props.C08.store_event_refines_adam', 'Props.C08.store_refines_value_model_adam', 'Props.C08.store_adam_refines',
+                     'Props.C08.aliased_first_buffer_counterexample']
 RULE = ('histories over {backward(any subset of parameters, random gradient arrays), zero_grad, step, freeze/unfreeze} of '
         'length <= 10 (quick) / 60 (thorough), incl. several backward per step and step without zero_grad, over hyper-parameter '
         'combinations (momentum 0/>0, dampening, nesterov, weight_decay 0/>0, maximize, betas, eps), 1-3 parameters of 1-3 '
         'elements, mixed frozen/trainable; every array element is one scalar parameter of the model. Compared after every '
         'event: values (rel 1e-10), presence and value of .grad, identity / dtype / shape of p.data. Non-trivial: >= 2 steps '
-        'and a non-default hyper-parameter.')
+        'and a non-default hyper-parameter. '
+        'Family `store` (Synap.OptimStore, arrays as buffers with identities): histories over {backward (one loss.backward() over any subset), '
+        'p.backward(g) on a parameter itself, zero_grad, step, freeze/unfreeze} biased towards backward-step-backward-step without zero_grad '
+        'and several backwards per step, 1-3 float64 C-contiguous parameters of 1-4 elements, length <= 10 (quick) / 40 (thorough), plus three '
+        'fixed histories (SGD momentum 0.9 without / with weight decay, Adam with weight decay). After the constructor and after every event: '
+        'contents of every p.data, p._grad, momentum buffer / first and second moment (rel 1e-10), and the sharing pattern projected to what '
+        'the property states: no momentum / moment array shares memory (`is` / np.shares_memory) with a p.data, a p._grad or another momentum / '
+        'moment array, and every p.data is the array object the parameter started with. Non-trivial there: >= 2 steps and (a backward between '
+        'two steps with no zero_grad in between, or a non-default hyper-parameter).')
 EXHAUSTIVE = {'quick': False, 'thorough': False}     # thorough contains an exhaustive sub-family (all event words up to length 5), counted in the distribution
 ASSUMPTIONS = ['float64 parameters; NumPy array arithmetic is the pointwise map of IEEE binary64 scalar arithmetic',
                'Python float ** int is libm pow (as Lean Float.pow)']
@@ -68,6 +86,7 @@ def _ctor_line(c):
 
 
 def lines_of(c):
+    if c.get('kind') == 'store': return _store_lines(c)
     offs = list(itertools.accumulate([0] + [len(t) for t in c['thetas']]))
     out = [_ctor_line(c), 'opt get']
     for e in c['evs']:
@@ -116,9 +135,15 @@ def cases(rng, tier):
                 'thetas': [[1.0, 1.0]], 'rgs': [True], 'evs': [('bw', {0: [2.0, 2.0]}), ('step',), ('bw', {0: [2.0, 1.0]}), ('step',), ('step',)]})
     out.append({'opt': 'adam', 'hp': {'lr': .1, 'betas': (0.9, 0.999), 'eps': 1e-8, 'weight_decay': 0.1, 'maximize': False},
                 'thetas': [[1.0], [2.0]], 'rgs': [True, True], 'evs': [('bw', {0: [1.0]}), ('step',), ('bw', {0: [1.0], 1: [.5]}), ('step',), ('step',)]})
+    # family `store`: the same optimizers over array buffers with identities (which array object holds what); generated after every
+    # case above, so those are drawn exactly as before
+    for _ in range(40 if tier == 'quick' else 600):
+        out.append(gen_store(rng, tier))
+    out.extend(_store_corpus())
     for c in out:
         c['lines'] = lines_of(c)
         c['desc'] = {'opt': c['opt'], 'hp': c['hp'], 'thetas': c['thetas'], 'rgs': c['rgs'], 'evs': c['evs'][:12]}
+        if c.get('kind'): c['desc'] = dict(kind=c['kind'], **c['desc'])
     return out
 
 
@@ -162,6 +187,7 @@ def _run(c, observe):
 
 
 def impl(c):
+    if c.get('kind') == 'store': return _store_impl(c)
     out = []
     flags = {'inplace': True, 'dtype': True}
     def observe(e, ps, ids):
@@ -198,6 +224,7 @@ def _close(a, b, tol=1e-10):
 
 
 def compare(c, mo, io):
+    if c.get('kind') == 'store': return _store_compare(c, mo, io)
     diffs = []
     if mo[0] == 'rejected' and io[0] == 'rejected':
         return []
@@ -217,17 +244,311 @@ def compare(c, mo, io):
 def nontrivial(c):
     hp = c['hp']
     nd = any(hp.get(k) for k in ('momentum', 'dampening', 'weight_decay', 'nesterov', 'maximize')) or c['opt'] != 'sgd'
+    if c.get('kind') == 'store':
+        # a backward between two steps with no zero_grad in between (the gradient array of the first step is accumulated into again)
+        armed, hit, steps = False, False, 0
+        for e in c['evs']:
+            if e[0] == 'step':
+                steps += 1
+                if armed == 'bw': hit = True
+                armed = True
+            elif e[0] == 'zero': armed = False
+            elif e[0] in ('bw', 'bwroot') and armed: armed = 'bw'
+        return steps >= 2 and (hit or bool(nd))
     return sum(1 for e in c['evs'] if e[0] == 'step') >= 2 and bool(nd)
 
 
 def distribution(cases):
     d = {}
     for c in cases:
+        if c.get('kind') == 'store':
+            for k in ['store', 'store:' + c['opt']] + ['store-ev:' + e[0] for e in c['evs']]:
+                d[k] = d.get(k, 0) + 1
+            continue
         d[c['opt']] = d.get(c['opt'], 0) + 1
         if c.get('exhaustive'): d['exhaustive: all event words up to length 5 (sgd) / 4 (adam, adamw) containing a step'] = d.get('exhaustive: all event words up to length 5 (sgd) / 4 (adam, adamw) containing a step', 0) + 1
         for e in c['evs']:
             d['ev:' + e[0]] = d.get('ev:' + e[0], 0) + 1
     return d
+
+
+# ---- family `store`: arrays as buffers with identities (Synap.OptimStore) ------------------------
+def gen_store(rng, tier, kind=None, hp=None):
+    """history biased towards the shapes where *which array object* holds a value matters: backward, step, backward again
+    without zero_grad, step; several backwards per step; p.backward(g) on a parameter itself; freeze / unfreeze"""
+    kind = kind or rng.pick(['sgd', 'sgd', 'adam', 'adamw'])
+    hp = dict(hp or hyper(rng, kind))
+    if kind == 'sgd':
+        if hp['momentum'] == 0 and rng.chance(0.6): hp['momentum'] = rng.pick([0.9, 0.5])        # without momentum SGD keeps no array
+        if hp['nesterov'] and (hp['momentum'] <= 0 or hp['dampening'] != 0) and not rng.chance(0.1): hp['nesterov'] = False
+    npar = rng.randint(1, 3)
+    sizes = [rng.randint(1, 4) for _ in range(npar)]
+    thetas = [[rng.dyadic(-3, 3) for _ in range(s)] for s in sizes]
+    rgs = [rng.chance(0.85) for _ in range(npar)]
+    if not any(rgs) and rng.chance(0.8): rgs[rng.randrange(npar)] = True
+    rg = list(rgs)                                   # bookkeeping of the current requires_grad flags
+    scale = rng.pick([1.0, 1.0, 1.0, 1e-3, 1e-6, 1e4])
+    arr = lambda i: [(rng.dyadic(-2, 2) if rng.chance(.7) else rng.uniform(-2, 2)) * scale for _ in range(sizes[i])]
+    def bw():
+        sub = [i for i in range(npar) if rng.chance(0.7)] or [rng.randrange(npar)]
+        return ('bw', {i: arr(i) for i in sub})
+    def bwroot():
+        live = [i for i in range(npar) if rg[i]]     # p.backward raises on a tensor that does not require grad: never generated
+        if not live: return bw()
+        i = rng.pick(live)
+        return ('bwroot', i, arr(i))
+    def toggle():
+        i = rng.randrange(npar)
+        rg[i] = not rg[i] if rng.chance(0.8) else rg[i]
+        return ('rg', i, rg[i])
+    n = rng.randint(3, 10 if tier == 'quick' else 40)
+    evs = []
+    while len(evs) < n:
+        r = rng.random()
+        if r < 0.30: evs += [bw(), ('step',), bw(), ('step',)]
+        elif r < 0.45: evs += [bw() for _ in range(rng.randint(2, 3))] + [('step',)]
+        elif r < 0.55: evs += [('zero',), bw(), ('step',)]
+        elif r < 0.63: evs += [bwroot(), ('step',)]
+        elif r < 0.70: evs += rng.pick([[bwroot(), bw()], [bw(), bwroot()], [bwroot(), bwroot()]]) + [('step',)]
+        elif r < 0.78: evs.append(('step',))
+        elif r < 0.86: evs.append(('zero',))
+        elif r < 0.95: evs.append(toggle())
+        else: evs.append(bw())
+    if len(evs) > n:
+        # cut to the length drawn; the flags the generator tracked are those of the full word, a prefix never meets a frozen bwroot either
+        evs = evs[:n]
+    return {'kind': 'store', 'opt': kind, 'hp': hp, 'thetas': thetas, 'rgs': rgs, 'evs': evs}
+
+
+def _store_corpus():
+    sgd = lambda wd: {'lr': .1, 'momentum': 0.9, 'dampening': 0.0, 'weight_decay': wd, 'nesterov': False, 'maximize': False}
+    word = [('bw', {0: [2.0, 2.0], 1: [-1.0]}), ('step',), ('bw', {0: [2.0, 1.0], 1: [0.5]}), ('step',), ('step',)]
+    return [{'kind': 'store', 'opt': 'sgd', 'hp': sgd(0.0), 'thetas': [[1.0, 1.0], [3.0]], 'rgs': [True, True], 'evs': list(word)},
+            {'kind': 'store', 'opt': 'sgd', 'hp': sgd(0.1), 'thetas': [[1.0, 1.0], [3.0]], 'rgs': [True, True], 'evs': list(word)},
+            {'kind': 'store', 'opt': 'adam', 'hp': {'lr': .1, 'betas': (0.9, 0.999), 'eps': 1e-8, 'weight_decay': 0.1, 'maximize': False},
+             'thetas': [[1.0, 1.0], [3.0]], 'rgs': [True, True], 'evs': list(word[:4])}]
+
+
+_STORE_Q = ['optstore alias', 'optstore get', 'optstore grads', 'optstore bufs']
+
+
+def _store_lines(c):
+    hp, kind = c['hp'], c['opt']
+    arrs = ';'.join(show_floats(t) for t in c['thetas']) or '_'
+    rg = ','.join(str(int(r)) for r in c['rgs']) or '_'
+    if kind == 'sgd':
+        out = [f"optstore new sgd {fbits(hp['lr'])} {fbits(hp['momentum'])} {fbits(hp['dampening'])} {fbits(hp['weight_decay'])} {int(hp['nesterov'])} {int(hp['maximize'])} {arrs} {rg}"]
+    else:
+        out = [f"optstore new {kind} {fbits(hp['lr'])} {fbits(hp['betas'][0])} {fbits(hp['betas'][1])} {fbits(hp['eps'])} {fbits(hp['weight_decay'])} {int(hp['maximize'])} {arrs} {rg}"]
+    out += _STORE_Q
+    for e in c['evs']:
+        if e[0] == 'bw':
+            out += [f'optstore ev bw {i} {show_floats(g)}' for i, g in sorted(e[1].items())]
+        elif e[0] == 'bwroot':
+            out.append(f'optstore ev bwroot {e[1]} {show_floats(e[2])}')
+        elif e[0] == 'rg':
+            out.append(f'optstore ev rg {e[1]} {int(e[2])}')
+        else:
+            out.append(f'optstore ev {e[0]}')
+        out += _STORE_Q
+    return out
+
+
+def _store_norm(c):
+    """a store case after a json round trip (dict keys became strings, tuples lists)"""
+    c = dict(c)
+    evs = []
+    for e in c['evs']:
+        if e[0] == 'bw': evs.append(('bw', {int(k): list(v) for k, v in e[1].items()}))
+        elif e[0] == 'bwroot': evs.append(('bwroot', int(e[1]), list(e[2])))
+        elif e[0] == 'rg': evs.append(('rg', int(e[1]), bool(e[2])))
+        else: evs.append((e[0],))
+    c['evs'] = evs
+    c['hp'] = {k: (tuple(v) if isinstance(v, list) else v) for k, v in c['hp'].items()}
+    return c
+
+
+def _arr(x):
+    return x if isinstance(x, np.ndarray) else None
+
+
+def _store_state(opt, n):
+    """the arrays the optimizer keeps per parameter: (momentum_buffer | m1, m2); a place holding None or the integer 0 is empty"""
+    if hasattr(opt, 'momentum_buffer'):
+        return [_arr(x) for x in opt.momentum_buffer], [None] * n
+    return [_arr(x) for x in getattr(opt, 'm1', [None] * n)], [_arr(x) for x in getattr(opt, 'm2', [None] * n)]
+
+
+def _run_store(c, before, after):
+    """the history on the real objects; float64 C-contiguous 1-d parameters; `init` = the array objects the parameters start with"""
+    sg = common.impl()
+    from synapgrad import optim
+    ps = [sg.Tensor(np.array(t, dtype=np.float64), requires_grad=rg) for t, rg in zip(c['thetas'], c['rgs'])]
+    init = [p.data for p in ps]                      # recorded after construction (whether or not the constructor copies)
+    opt = {'sgd': optim.SGD, 'adam': optim.Adam, 'adamw': optim.AdamW}[c['opt']](ps, **dict(c['hp']))
+    after(-1, ('ctor',), ps, opt, init)
+    for k, e in enumerate(c['evs']):
+        before(k, e, ps, opt, init)
+        if e[0] == 'bw':
+            terms = [(ps[i] * sg.Tensor(np.array(g, dtype=np.float64))).sum() for i, g in sorted(e[1].items()) if ps[i].requires_grad]
+            if terms:
+                loss = terms[0]
+                for t in terms[1:]:
+                    loss = loss + t
+                loss.backward()                      # ONE backward call for the whole event
+        elif e[0] == 'bwroot':
+            ps[e[1]].backward(sg.Tensor(np.array(e[2], dtype=np.float64)))
+        elif e[0] == 'zero':
+            opt.zero_grad()
+        elif e[0] == 'step':
+            opt.step()
+        else:
+            ps[e[1]].requires_grad = e[2]
+        after(k, e, ps, opt, init)
+
+
+def _store_observe(ps, opt, init):
+    """the four answer lines: sharing pattern, parameter contents, gradient contents, optimizer array contents"""
+    n = len(ps)
+    b1, b2 = _store_state(opt, n)
+    places = [_arr(p.data) for p in ps] + [_arr(p._grad) for p in ps] + b1 + b2
+    labels = []
+    for k, a in enumerate(places):
+        if a is None:
+            labels.append('-'); continue
+        labels.append(str(next(j for j in range(k + 1) if places[j] is not None and (places[j] is a or np.shares_memory(places[j], a)))))
+    kept = ','.join(str(int(p.data is o)) for p, o in zip(ps, init))
+    show = lambda xs: ';'.join('-' if x is None else show_floats(np.asarray(x, dtype=np.float64).ravel()) for x in xs)
+    return [','.join(labels) + '|' + kept, show([p.data for p in ps]), show([p._grad for p in ps]), show(b1) + '|' + show(b2)]
+
+
+def _store_impl(c):
+    out = []
+    def after(k, e, ps, opt, init):
+        out.extend(['ok'] * (len(e[1]) if e[0] == 'bw' else 1))
+        out.extend(_store_observe(ps, opt, init))
+    r = outcome(lambda: _run_store(c, lambda *a: None, after))
+    if r == 'rejected':
+        if not out:
+            return ['rejected'] + ['?'] * (len(c['lines']) - 1)
+        return out + ['rejected'] * (len(c['lines']) - len(out))
+    return out
+
+
+def _store_proj(s):
+    """what the property states about a sharing pattern: every momentum / moment place is empty or shares with NO other place, and the
+    parameter data objects are the initial ones.  Sharing among gradients / between a gradient and nothing else is not observed."""
+    if '|' not in s: return s
+    labs, kept = s.split('|')
+    labs = labs.split(',')
+    n = len(labs) // 4
+    names = [f'{r}[{i}]' for r in ('data', 'grad', 'b1', 'b2') for i in range(n)]
+    out = []
+    for k in range(2 * n, 4 * n):
+        out.append(f'{names[k]}:-' if labs[k] == '-' else f'{names[k]}:[' + ' '.join(names[j] for j in range(4 * n) if j != k and labs[j] == labs[k]) + ']')
+    return ' '.join(out) + ' | data kept: ' + kept
+
+
+def _store_compare(c, mo, io):
+    if mo[0] == 'rejected' and io[0] == 'rejected':
+        return []
+    blk = -2                                          # -1 = after the constructor, j = after event j
+    for k, (m, i) in enumerate(zip(mo, io)):
+        line = c['lines'][k]
+        if line == 'optstore alias': blk += 1
+        where = f'{line}  [after ' + ('the constructor' if blk < 0 else f'event {blk} ({c["evs"][blk][0]})') + ']'
+        if line == 'optstore alias':
+            pm, pi = _store_proj(m), _store_proj(i)
+            if pm != pi:
+                return [(where + ' projected to: optimizer arrays share with / data objects kept', pm, pi)]
+            continue
+        if m == i: continue
+        ms, is_ = [x.split(';') for x in m.split('|')], [x.split(';') for x in i.split('|')]
+        ok = len(ms) == len(is_) and all(len(a) == len(b) for a, b in zip(ms, is_))
+        if ok:
+            for a, b in zip([x for g in ms for x in g], [x for g in is_ for x in g]):
+                av, bv = a.split(','), b.split(',')
+                if len(av) != len(bv) or not all(_close(x, y, 1e-10) for x, y in zip(av, bv)):
+                    ok = False; break
+        if not ok:
+            return [(where, m, i)]
+    return []
+
+
+def _store_oracle(c):
+    """the property on the real code alone: the arrays the optimizer keeps are its own (nothing a backward / zero_grad does reaches
+    them, they share memory with no p.data / p._grad / each other), parameters are updated in place in their initial array, a step
+    leaves the gradients alone, and the values follow the published recursion"""
+    kind, hp = c['opt'], c['hp']
+    legal = not (kind == 'sgd' and hp['nesterov'] and (hp['momentum'] <= 0 or hp['dampening'] != 0))
+    key = {'opt': kind}
+    n = len(c['thetas'])
+    fails, seen, snap = [], [], {}
+    same = lambda a, b: a.shape == b.shape and a.dtype == b.dtype and bool(np.array_equal(a, b, equal_nan=True))
+    pname = lambda r, i: {'b1': 'momentum_buffer' if kind == 'sgd' else 'm1', 'b2': 'm2'}[r] + f'[{i}]'
+    def fail(k, cls, what):
+        if not fails:
+            fails.append((k, {'key': dict(key, cls=cls), 'case': _strip(c, k + 1), 'what': f'after event {k} ({c["evs"][k][0]}): {what}' if k >= 0 else f'after the constructor: {what}'}))
+    def before(k, e, ps, opt, init):
+        snap.clear()
+        if fails: return
+        b1, b2 = _store_state(opt, n)
+        snap['state'] = [(r, i, a, a.copy()) for r, l in (('b1', b1), ('b2', b2)) for i, a in enumerate(l) if a is not None]
+        snap['data'] = [p.data.copy() for p in ps]
+        snap['grad'] = [(i, p._grad, p._grad.copy()) for i, p in enumerate(ps) if _arr(p._grad) is not None]
+    def after(k, e, ps, opt, init):
+        if k >= 0: seen.append([float(v) for p in ps for v in np.asarray(p.data).ravel()])
+        if fails: return
+        b1, b2 = _store_state(opt, n)
+        state = [(r, i, a) for r, l in (('b1', b1), ('b2', b2)) for i, a in enumerate(l) if a is not None]
+        if k >= 0 and e[0] != 'step':
+            # (a) nothing outside step() may reach the optimizer's arrays or the parameter values
+            for r, i, a, old in snap['state']:
+                if any(x is a for _, _, x in state) and not same(a, old):
+                    return fail(k, 'state-corrupted', f'optimizer state corrupted by gradient accumulation: {pname(r, i)} was {old.tolist()} before the {e[0]} event and is {a.tolist()} after it (same array object, no step in between)')
+            for i, (p, old) in enumerate(zip(ps, snap['data'])):
+                if not same(np.asarray(p.data), old):
+                    return fail(k, 'data-corrupted', f'p{i}.data was {old.tolist()} before the {e[0]} event and is {np.asarray(p.data).tolist()} after it (no step in between)')
+        # (b) the optimizer's arrays are its own
+        for x, (r, i, a) in enumerate(state):
+            for j, p in enumerate(ps):
+                for nm, o in ((f'p{j}._grad', _arr(p._grad)), (f'p{j}.data', _arr(p.data))):
+                    if o is not None and (o is a or np.shares_memory(o, a)):
+                        return fail(k, 'state-aliased', f'{pname(r, i)} shares memory with {nm}')
+            for r2, i2, a2 in state[x + 1:]:
+                if a2 is a or np.shares_memory(a2, a):
+                    return fail(k, 'state-aliased', f'{pname(r, i)} shares memory with {pname(r2, i2)}')
+        # (c) parameters are updated in place, in the array they started with
+        for i, (p, o) in enumerate(zip(ps, init)):
+            if p.data is not o:
+                return fail(k, 'inplace', f'p.data was replaced, not updated in place (parameter {i})')
+            if p.data.dtype != np.float64 or p.data.shape != (len(c['thetas'][i]),):
+                return fail(k, 'dtype', f'dtype / shape of p{i}.data changed to {p.data.dtype} {p.data.shape}')
+        # (d) a step reads the gradients, it does not write them
+        if k >= 0 and e[0] == 'step':
+            for i, g, old in snap['grad']:
+                if ps[i]._grad is g and not same(g, old):
+                    return fail(k, 'grad-corrupted', f'p{i}._grad was {old.tolist()} before step() and is {g.tolist()} after it (same array object)')
+    r = outcome(lambda: _run_store(c, before, after))
+    if fails and legal:
+        first = fails[0]
+    else:
+        first = None
+    if r == 'rejected':
+        if first: return first[1]
+        if legal:
+            return {'key': dict(key, cls='rejected'), 'case': _strip(c), 'what': 'optimizer / engine raised on a legal history'}
+        return None
+    if not legal:
+        return {'key': dict(key, cls='accepted-illegal'), 'case': _strip(c), 'what': 'nesterov without momentum / with dampening was accepted'}
+    # (e) the values against the published recursion (`_spec` reads the old event format: p.backward(g) contributes g to that parameter)
+    want = _spec(dict(c, evs=[('bw', {e[1]: e[2]}) if e[0] == 'bwroot' else e for e in c['evs']]))
+    for k, (a, b) in enumerate(zip(seen, want)):
+        if first and first[0] <= k: break
+        for x, y in zip(a, b):
+            if (x != x) != (y != y) or (x == x and abs(x - y) > 1e-9 * (1 + abs(x) + abs(y))):
+                return {'key': dict(key, cls='trajectory'), 'case': _strip(c, k + 1), 'what': f'after event {k} ({c["evs"][k][0]}) parameters are {a}, the published recursion gives {b}'}
+    return first[1] if first else None
 
 
 # ---- the published recursions, evaluated independently in Python floats -------------------------
@@ -284,6 +605,7 @@ def _spec(c):
 
 
 def oracle(c):
+    if c.get('kind') == 'store': return _store_oracle(c)
     legal = not (c['opt'] == 'sgd' and c['hp']['nesterov'] and (c['hp']['momentum'] <= 0 or c['hp']['dampening'] != 0))
     seen = []
     flags = {'inplace': True, 'dtype': True}
@@ -313,6 +635,8 @@ def oracle(c):
 
 
 def _strip(c, nev=None):
+    if c.get('kind') == 'store':
+        return {'kind': 'store', 'opt': c['opt'], 'hp': c['hp'], 'thetas': c['thetas'], 'rgs': c['rgs'], 'evs': c['evs'][:nev] if nev else c['evs']}
     return {'opt': c['opt'], 'hp': c['hp'], 'thetas': c['thetas'], 'rgs': c['rgs'], 'evs': c['evs'][:nev] if nev else c['evs'], 'seed_lay': c.get('seed_lay', 0), 'dt': c.get('dt', 'f64')}
 
 
@@ -329,12 +653,16 @@ def matches_known(k, fail):
 
 def rerun_known(k):
     w = k['witness']
+    if w.get('kind') == 'store': return oracle(_store_norm(w)) is not None
     w['evs'] = [tuple(e) if not isinstance(e, tuple) else e for e in w['evs']]
     return oracle(w) is not None
 
 
 def replay(fail):
     c = fail['case']
+    if c.get('kind') == 'store':
+        f = oracle(_store_norm(c))
+        return {'fails': f is not None, 'now': f}
     c['evs'] = [(e[0], {int(k): v for k, v in e[1].items()}) if e[0] == 'bw' else tuple(e) for e in c['evs']]
     c['hp'] = {k: (tuple(v) if isinstance(v, list) else v) for k, v in c['hp'].items()}
     f = oracle(c)
